@@ -67,3 +67,30 @@ def hists_def(hs, op_fn=coq_op, name="cases"):
 def decode(xs):
     """[hist*1000 + op] -> [(hist, op)]"""
     return [(x // 1000, x % 1000) for x in xs]
+
+
+# ---- C08 histories (Engine/Check8.v) ----
+PRELUDE8 = ("From NV Require Import Engine.Model Engine.Spec Engine.Check Engine.Gc Engine.Check8.\n"
+            "From Coq Require Import List NArith. Import ListNotations.\nLocal Open Scope N_scope.\n")
+
+
+def coq_op8(o):
+    t = o["op"]
+    if t == "newepoch":
+        return "(ONewEpoch %d)" % o["a"]
+    if t == "gcx":
+        n = len(o["modes"])
+        flat = o.get("ord") or []
+        ords = [flat[k:k + n] for k in range(0, len(flat), n)]
+        return "(OGcx %d%%nat %s %s)" % (o["i"], n_list(o.get("extra")), "[" + "; ".join(nat_list(x) for x in ords) + "]")
+    return "(O8 %s)" % coq_op(o)
+
+
+def coq_hist8(h):
+    ops = "[" + ";\n  ".join("(%s, %s)" % (coq_op8(o), coq_obs(o)) for o in h["ops"]) + "]"
+    return "(%d%%nat, %d, %s, %s, %s)" % (h["n"], h["thr"], "[" + "; ".join(coq_rec(o) for o in h["objs"]) + "]",
+                                      n_list(h.get("rank") or list(range(len(h["objs"])))), ops)
+
+
+def hists8_def(hs, name="cases"):
+    return "Definition %s : list hist8 := [\n%s\n].\n" % (name, ";\n".join(coq_hist8(h) for h in hs))
